@@ -35,3 +35,44 @@ Proof. exact put_varint_cap_spec. Qed.
 Example C14_varint_example :
   varint_max <= varint_max /\ get_varint (enc 16384 ++ [7]) = Some (16384, [7]) /\ vsize 16384 = 4%nat.
 Proof. vm_compute. repeat split; congruence. Qed.
+
+(* ---------------- frames ---------------- *)
+From WT.Model Require Import Ids Frame.
+From WT.Proofs Require Import FrameP.
+
+(* decode (encode f ++ rest) = (f, rest) for every well-formed frame whose
+   payload is within the receiver's parse limit (4096), any continuation *)
+Theorem C14_frame_roundtrip :
+  forall f r, frame_wf f = true -> len (fpayload f) <= max_parse_payload ->
+              frame_read (frame_write f ++ r) = (RVal f, r).
+Proof. exact frame_read_write. Qed.
+
+Theorem C14_frame_size : forall f, length (frame_write f) = frame_write_size f.
+Proof. exact frame_write_length. Qed.
+
+Theorem C14_frame_capacity :
+  forall cap f,
+    (frame_write_to_buffer cap f = None <-> (cap < frame_write_size f)%nat) /\
+    (forall w, frame_write_to_buffer cap f = Some w -> w = frame_write f /\ length w = frame_write_size f).
+Proof. exact frame_write_to_buffer_spec. Qed.
+
+(* ---------------- stream headers ---------------- *)
+Theorem C14_sheader_roundtrip :
+  forall h r, sheader_wf h = true -> sheader_read (sheader_write h ++ r) = (SVal h, r).
+Proof. exact sheader_read_write. Qed.
+
+Theorem C14_sheader_size : forall h, length (sheader_write h) = sheader_write_size h.
+Proof. exact sheader_write_length. Qed.
+
+Theorem C14_sheader_capacity :
+  forall cap h,
+    (sheader_write_to_buffer cap h = None <-> (cap < sheader_write_size h)%nat) /\
+    (forall w, sheader_write_to_buffer cap h = Some w -> w = sheader_write h /\ length w = sheader_write_size h).
+Proof. exact sheader_write_to_buffer_spec. Qed.
+
+Example C14_frame_example :
+  let f := mkframe (KExercise 64) [1; 2; 3] None in
+  frame_wf f = true /\ len (fpayload f) <= max_parse_payload /\
+  frame_read (frame_write f ++ [9]) = (RVal f, [9]) /\
+  sheader_wf (mksheader SWebTransport (Some 16384)) = true.
+Proof. vm_compute. repeat split; congruence. Qed.
